@@ -113,7 +113,7 @@ def write_gf_replay(pid, name, f, g):
     os.makedirs(d, exist_ok=True)
     path = os.path.join(d, f"smt_{name}_zero_divisor.rs")
     with open(path, "w") as fh:
-        fh.write(f"""// SMT counterexample: POLYNOMIAL of {name} = f * g over GF(2)[x], so f and g are zero divisors.
+        fh.write(f"""// hook: root\n// SMT counterexample: POLYNOMIAL of {name} = f * g over GF(2)[x], so f and g are zero divisors.
 // replay: ./check {pid} --replay {path}
 #[test]
 fn smt_replay_{name.lower()}_zero_divisor() {{
